@@ -305,6 +305,57 @@ def _gen_chain_case(rng: random.Random) -> dict:
     return {'cap': rng.choice([1, 2, 100]), 'ops': ops, 'meta': {'scenario': 'chain'}}
 
 
+def _gen_twin_case(rng: random.Random) -> dict:
+    """Two (or three) shared directories — side by side or nested — that hold a file at the SAME relative path with the same
+    name and exactly the same modification time (a copy that preserves times): the two are different shared files, both are
+    indexed, both are found, and un-sharing one directory leaves the other's file searchable."""
+    a, b = rng.choice([('t1', 't2'), ('m/one', 'm/two'), ('m', 'm/in'), ('x/y', 'z'), ('p', 'p/q/r')])
+    extra = rng.choice([None, None, 't3'])
+    subs = [rng.choice(['', '', 'cd', _gen_name(rng, 1)]) for _ in range(rng.choice([1, 2, 3]))]
+    ops: list = []
+    files: list[str] = []
+
+    def j(*parts):
+        return '/'.join(x for x in parts if x)
+
+    for sub in subs:
+        name = _gen_name(rng, rng.choice([1, 2, 2])) + '.' + rng.choice(EXTS)
+        src = j(a, sub, name)
+        if src in files:
+            continue
+        ops.append(['touch', src])
+        files.append(src)
+        for d in [b] + ([extra] if extra else []):
+            if rng.random() < 0.85:
+                dst = j(d, sub, name)
+                if dst not in files:
+                    ops.append(['copy', src, dst])
+                    files.append(dst)
+    # some files of their own
+    for d in (a, b):
+        if rng.random() < 0.6:
+            f = j(d, _gen_name(rng, 2) + '.' + rng.choice(EXTS))
+            if f not in files:
+                ops.append(['touch', f])
+                files.append(f)
+    order = [a, b] + ([extra] if extra else [])
+    rng.shuffle(order)
+    for d in order:
+        ops.append(['add', d])
+        if rng.random() < 0.5:
+            ops.append(['scan', d])
+    ops += [['scanall'], ['stats']]
+    for _ in range(4):
+        ops.append(['query', _gen_query(rng, files)])
+    victim = rng.choice(order)
+    ops += [['remove', victim, rng.choice(['str', 'obj'])], ['stats']]
+    for _ in range(4):
+        ops.append(['query', _gen_query(rng, files)])
+    if rng.random() < 0.5:
+        ops += [['add', victim], ['scanall'], ['stats'], ['query', _gen_query(rng, files)]]
+    return {'cap': rng.choice([2, 5, 100, 100]), 'ops': ops, 'meta': {'scenario': 'twins'}}
+
+
 def _gen_sibling_case(rng: random.Random) -> dict:
     """A nested shared directory (`P/CD1`) beside directories whose NAMES extend its name (`P/CD10`, `P/CD1 (bonus)`,
     `P/Album [Deluxe]`, ...) or whose name it extends (shared `P/CD10` beside `P/CD1`), with files directly in them and
@@ -391,6 +442,8 @@ def _gen_case(rng: random.Random) -> dict:
         return _gen_chain_case(rng)
     if r0 < 0.27:
         return _gen_sibling_case(rng)
+    if r0 < 0.35:
+        return _gen_twin_case(rng)
     tree_shapes: list = []
     dirs, files = _gen_tree(rng, tree_shapes)
     ops: list = [['touch', f] for f in files]
@@ -605,6 +658,15 @@ def _run_impl(case: dict) -> list:
                 except OSError:
                     pass
                 obs.append(None)
+            elif kind == 'copy':
+                # `cp -p` / `rsync -t` / the same archive unpacked twice: another file with the SAME modification time
+                import shutil as _sh
+                src, dst = ap(op[1]), ap(op[2])
+                os.makedirs(os.path.dirname(dst), exist_ok=True)
+                _sh.copyfile(src, dst)
+                st = os.stat(src)
+                os.utime(dst, ns=(st.st_atime_ns, st.st_mtime_ns))
+                obs.append(None)
             elif kind == 'link':
                 # an entry of the directory that cannot be stat'ed: a symbolic link whose target is gone (op[2] == 0) or
                 # a link that points at itself (ELOOP, op[2] == 1) — os.walk lists it among the files, getmtime raises
@@ -735,6 +797,10 @@ def _model_lines(case: dict) -> tuple[list[str], list[int]]:
         if k == 'touch':
             if op[1] not in disk:
                 disk.append(op[1])
+            where.append(-1)
+        elif k == 'copy':
+            if op[2] not in disk:
+                disk.append(op[2])
             where.append(-1)
         elif k == 'rm':
             if op[1] in disk:
@@ -902,6 +968,8 @@ def _monitor(case: dict, impl: list) -> list[Violation]:
         k = op[0]
         if k == 'touch':
             disk.add(op[1])
+        elif k == 'copy':
+            disk.add(op[2])
         elif k == 'rm':
             disk.discard(op[1])
         elif k in ('mod', 'link', 'unlink'):
@@ -1009,7 +1077,12 @@ W_UNREADABLE = {'cap': 100, 'ops': [['touch', 'n/keep a.mp3'], ['link', 'n/gone 
 W_SAMETEXT = {'cap': 100, 'ops': [['touch', 'm/remix one.mp3'], ['touch', 'm/mix two.mp3'], ['touch', 'm/remix mix.mp3'],
                                   ['add', 'm'], ['scan', 'm'], ['query', '*mix -mix'], ['query', '-mix *mix'],
                                   ['query', 'mix *mix'], ['query', 'remix -REMIX'], ['query', '*mix *mix']]}
-WITNESSES = [W_WILDCARD, W_REMOVED, W_VANISHED, W_MOVED, W_SIBLING, W_UNREADABLE, W_SAMETEXT]
+# the same file copied with its times into a second shared directory: two shared files
+W_TWINS = {'cap': 100, 'ops': [['touch', 't1/cd/intro a.mp3'], ['copy', 't1/cd/intro a.mp3', 't2/cd/intro a.mp3'],
+                               ['touch', 't2/other b.mp3'], ['add', 't1'], ['add', 't2'], ['scanall'], ['stats'],
+                               ['query', 'intro'], ['query', 'mp3'], ['remove', 't1', 'str'], ['stats'], ['query', 'intro'],
+                               ['add', 't1'], ['scanall'], ['remove', 't2', 'obj'], ['query', 'intro']]}
+WITNESSES = [W_WILDCARD, W_REMOVED, W_VANISHED, W_MOVED, W_SIBLING, W_UNREADABLE, W_SAMETEXT, W_TWINS]
 
 
 class C07(Property):
